@@ -55,18 +55,50 @@ def main():
 
     orig_gsi = m.get_state_id
 
+    def symbols(term, cache={}):  # noqa: B006
+        """names of the uninterpreted constants of a z3 term (plain traversal of the DAG)"""
+        import z3
+
+        k = term.get_id()
+        if k in cache:
+            return cache[k]
+        out, seen, todo = set(), set(), [term]
+        while todo:
+            t = todo.pop()
+            i = t.get_id()
+            if i in seen:
+                continue
+            seen.add(i)
+            if z3.is_app(t):
+                if t.num_args() == 0 and t.decl().kind() == z3.Z3_OP_UNINTERPRETED:
+                    out.add(t.decl().name())
+                todo.extend(t.children())
+            elif z3.is_quantifier(t):
+                todo.append(t.body())
+        keep.append(term)
+        cache[k] = out
+        return out
+
     def components(ex):
         """what the state consists of at this moment, read off the Exec itself (not through
-        snapshot_state): term ids, code identities, storage items, path conditions and slice"""
+        snapshot_state): term ids, code identities, storage items, path conditions and slice;
+        "direct" = positions of the conditions that mention a symbol occurring in the balance or
+        in a stored value (computed here from the terms, not from Path's bookkeeping)"""
         path = ex.path
+        state_syms = set(symbols(ex.balance))
+        for st in ex.storage.values():
+            for v in st._mapping.values():
+                state_syms |= symbols(v)
         return {
+            "direct": [i for i, c in enumerate(path.conditions) if symbols(c) & state_syms],
+            "state_symbols": sorted(state_syms)[:8],
             "balance": ex.balance.get_id(),
             "code": [[int_of(a), id(c)] for a, c in ex.code.items()],
             "storage": [[int_of(a), [[list(k) if isinstance(k, tuple) else k, v.get_id()] for k, v in st._mapping.items()]]
                         for a, st in ex.storage.items()],
             "conds": [c.get_id() for c in path.conditions],
             "sliced": None if path.sliced is None else sorted(path.sliced),
-            "cond_text": {str(i): str(c)[:120] for i, c in enumerate(path.conditions) if path.sliced is not None and i in path.sliced},
+            "cond_text": {str(i): str(c)[:120] for i, c in enumerate(path.conditions) if (path.sliced is not None and i in path.sliced) or symbols(c) & state_syms},
         }
 
     def get_state_id(ex):
